@@ -134,17 +134,25 @@ func firstIterValue(phi *ssa.Phi, b *ssa.BasicBlock) (ssa.Value, *ssa.BasicBlock
 			continue
 		}
 		bo, ok := iff.Cond.(*ssa.BinOp)
-		if !ok || bo.Op != token.EQL {
+		if !ok || (bo.Op != token.EQL && bo.Op != token.NEQ && bo.Op != token.GTR && bo.Op != token.LEQ) {
 			continue
 		}
 		k, z := bo.X, bo.Y
 		if !isIntConst(z, 0) {
+			if bo.Op == token.GTR || bo.Op == token.LEQ {
+				continue
+			}
 			k, z = bo.Y, bo.X
 			if !isIntConst(z, 0) {
 				continue
 			}
 		}
+		// the edge on which k == 0 (k is a non-negative loop index: `k > 0` false and `k <= 0`
+		// true say the same)
 		T := hb.Succs[0]
+		if bo.Op == token.NEQ || bo.Op == token.GTR {
+			T = hb.Succs[1]
+		}
 		if len(T.Preds) != 1 || !T.Dominates(b) {
 			continue
 		}
